@@ -435,6 +435,81 @@ func c06ArgUses(s *source, e *emitter, rel, name string) []string {
 	return out
 }
 
+// c06DeferredCtx classifies the context of every call on `recv` (e.g. "c.rds") inside the function literals that
+// `goName` hands to `sink` (work that runs later, outside the caller's request):
+//   background        a context-free method <M> whose body is `return s.<M>Ctx(context.Background(), …)` in relFree,
+//                     or an explicit context.Background() / context.TODO() first argument
+//   captured:<name>   an identifier from the enclosing function (the caller's ctx)
+//   other:<src>       anything else
+func c06DeferredCtx(s *source, e *emitter, rel, goName, sink, recv, relFree, recvTypeFree string) []string {
+	fd := s.findFunc(rel, goName)
+	if fd == nil {
+		e.errors = append(e.errors, fmt.Sprintf("function %s not found in %s", goName, rel))
+		return []string{"MISSING"}
+	}
+	var out []string
+	ast.Inspect(fd.Body, func(n ast.Node) bool {
+		c, ok := n.(*ast.CallExpr)
+		if !ok {
+			return true
+		}
+		name := ""
+		switch f := c.Fun.(type) {
+		case *ast.SelectorExpr:
+			name = f.Sel.Name
+		case *ast.Ident:
+			name = f.Name
+		}
+		if name != sink {
+			return true
+		}
+		for _, a := range c.Args {
+			fl, ok := a.(*ast.FuncLit)
+			if !ok {
+				continue
+			}
+			ast.Inspect(fl.Body, func(m ast.Node) bool {
+				ic, ok := m.(*ast.CallExpr)
+				if !ok {
+					return true
+				}
+				sel, ok := ic.Fun.(*ast.SelectorExpr)
+				if !ok || s.src(sel.X) != recv {
+					return true
+				}
+				if strings.HasSuffix(sel.Sel.Name, "Ctx") && len(ic.Args) > 0 {
+					switch src := s.src(ic.Args[0]); {
+					case src == "context.Background()" || src == "context.TODO()":
+						out = append(out, "background")
+					default:
+						if id, ok := ic.Args[0].(*ast.Ident); ok {
+							out = append(out, "captured:"+id.Name)
+						} else {
+							out = append(out, "other:"+src)
+						}
+					}
+					return true
+				}
+				// a context-free method: background iff its body hands context.Background() to the Ctx form
+				free := s.findFunc(relFree, recvTypeFree+"."+sel.Sel.Name)
+				cls := "other:" + s.src(ic.Fun)
+				if free != nil && len(free.Body.List) == 1 {
+					if rs, ok := free.Body.List[0].(*ast.ReturnStmt); ok && len(rs.Results) == 1 {
+						if fc, ok := rs.Results[0].(*ast.CallExpr); ok && len(fc.Args) > 0 &&
+							s.src(fc.Args[0]) == "context.Background()" && strings.HasSuffix(s.src(fc.Fun), "."+sel.Sel.Name+"Ctx") {
+							cls = "background"
+						}
+					}
+				}
+				out = append(out, cls)
+				return true
+			})
+		}
+		return true
+	})
+	return out
+}
+
 func c06Pairs(e *emitter, lean, doc string, keys []string, vals map[string][]string) {
 	sort.Strings(keys)
 	var rows []string
@@ -777,6 +852,9 @@ func init() {
 				"monc.MustNewModel":       c06CallArgSpread(s, e, monc, "MustNewModel", "NewModel", 4),
 				"monc.MustNewNodeModel":   c06CallArgSpread(s, e, monc, "MustNewNodeModel", "NewNodeModel", 4),
 			})
+		// round 5b: the context of the Redis command the cleaner's retry issues (work left behind by a Ctx entry point)
+		e.stringList("retryDelCtx", "context of the calls on c.rds inside the closure asyncRetryDelCache hands to AddCleanTask",
+			c06DeferredCtx(s, e, node, "cacheNode.asyncRetryDelCache", "AddCleanTask", "c.rds", rds, "Redis"))
 		e.stringList("newNodeOptionFields", "where the expiries of the cacheNode literal in NewNode come from",
 			append(c06LitFieldClass(s, e, node, "NewNode", "cacheNode", "expiry"), c06LitFieldClass(s, e, node, "NewNode", "cacheNode", "notFoundExpiry")...))
 		c06Facts(s, e, node, "cacheNode.String", "nodeStringFacts")
